@@ -1164,6 +1164,16 @@ def shrink_prog(pr):
             if j is not None:
                 cur, curj, changed = cand, j, True
                 break
+    if 'lam' not in cur and 'lit' in repr(cur):      # constants: one truthy and one falsy representative
+        def cl(e):
+            if e[0] == 'lit': return ('lit', '0' if e[1] in ('0', 'None', 'False', "''") else '1')
+            if e[0] == 'a': return e
+            return (e[0],) + tuple(cl(c) for c in e[1:])
+        cand = {'elt': cl(cur['elt']), 'clauses': [{'target': c['target'], 'iter': None if c['iter'] is None else cl(c['iter']),
+                                                   'conds': [cl(x) for x in c['conds']]} for c in cur['clauses']]}
+        if cand != cur:
+            j = violates_src(render_prog(cand))
+            if j is not None: cur, curj = cand, j
     # generalise: pairwise distinct atoms (first every leaf, then only the free names) if the failure survives
     if 'lam' not in cur:
         bound = set()
